@@ -18,9 +18,39 @@ ASSUMPTIONS = [
 ]
 
 
+def small_scope(rng, want):
+    """the exhaustive small scope of DESIGN 5/C02 - pools of 1-3 dice over faces {-1,0,1,2} with counts
+    {0,1,2} (at most 2 faces per die) x selections of 1-2 items from indexes -3..2 and slices with
+    start/stop in {None,-2..2} and step in {None,-2,-1,1,2} - walked with a seeded stride"""
+    import itertools
+    faces = [-1, 0, 1, 2]
+    dice = []
+    for k in (1, 2):
+        for fs in itertools.combinations(faces, k):
+            for cs in itertools.product([0, 1, 2], repeat=k):
+                if sum(cs) > 0:
+                    dice.append([[gens.q(f), c] for f, c in zip(fs, cs)])
+    pools_ = [list(c) for n in (1, 2, 3) for c in itertools.combinations_with_replacement(range(len(dice)), n)]
+    b = [None, -2, -1, 0, 1, 2]
+    items = [{"i": i} for i in range(-3, 3)] + [{"s": [x, y, z]} for x in b for y in b for z in (None, -2, -1, 1, 2)]
+    sels = [[a] for a in items] + [[a, c] for a in items for c in items]
+    total = len(pools_) * len(sels)
+    stride = max(1, total // want)
+    start = rng.randrange(stride)
+    out = []
+    for idx in range(start, total, stride):
+        pi, si = divmod(idx, len(sels))
+        out.append({"kind": "rwc", "dice": [dice[j] for j in pools_[pi]], "which": sels[si], "shape": "small-scope", "cls": "enum"})
+    return out, total
+
+
+SMALL_SCOPE_TOTAL = 0
+
+
 def gen_cases(rng, tier):
     n = 500 if tier == "quick" else 8000
-    cases = []
+    global SMALL_SCOPE_TOTAL
+    cases, SMALL_SCOPE_TOTAL = small_scope(rng, 150 if tier == "quick" else 12000)
     for i in range(n):
         big = (i % 25 == 24)
         hs, shape = pools.gen_pool(rng, max_dice=6 if big else 4, max_faces=6 if big else 4)
@@ -119,3 +149,7 @@ def shrink_candidates(case):
 
 def neighbours(case):
     yield from shrink_candidates(case)
+
+
+def extra_coverage():
+    return {"small_scope_space_size": SMALL_SCOPE_TOTAL, "small_scope_note": "walked with a seeded stride, not exhaustively"}
